@@ -1,6 +1,7 @@
 package main
 
 import (
+	"context"
 	"fmt"
 	"os"
 	"os/exec"
@@ -9,6 +10,7 @@ import (
 	"sort"
 	"strings"
 	"sync"
+	"time"
 )
 
 // Free-running complement of Engine C. The cooperative scheduler's hand-offs are happens-before
@@ -54,8 +56,20 @@ func parallelBody(fs ...func()) (panics int) {
 		}()
 	}
 	close(start)
-	wg.Wait()
-	return
+	done := make(chan struct{})
+	go func() { wg.Wait(); close(done) }()
+	select {
+	case <-done:
+	case <-time.After(3 * time.Second):
+		// a goroutine is stuck (typically on a mutex left locked by a panicking holder): abandon
+		// this body; the exhaustive exploration reports such defects with a schedule
+		mu.Lock()
+		panics += 1000
+		mu.Unlock()
+	}
+	mu.Lock()
+	defer mu.Unlock()
+	return panics
 }
 
 type raceReport struct {
@@ -119,6 +133,9 @@ func racePass(c *Ctx, prop string) {
 	bin := filepath.Join(verifRoot, ".bin", "check-race")
 	if _, err := os.Stat(bin); err != nil {
 		fmt.Println("INFRASTRUCTURE: race binary missing (run.sh builds it); no verdict")
+		if c.NumViolKeys() > 0 {
+			return
+		}
 		os.Exit(2)
 	}
 	logBase := filepath.Join(verifRoot, ".bin", "race-"+prop+".log")
@@ -126,11 +143,16 @@ func racePass(c *Ctx, prop string) {
 	for _, f := range old {
 		os.Remove(f)
 	}
-	cmd := exec.Command(bin, "-prop", prop, "-tier", c.Tier, "-racebody")
+	ctx, cancel := context.WithTimeout(context.Background(), 15*time.Minute)
+	defer cancel()
+	cmd := exec.CommandContext(ctx, bin, "-prop", prop, "-tier", c.Tier, "-racebody")
 	cmd.Env = append(os.Environ(), "GORACE=log_path="+logBase+" halt_on_error=0 exitcode=0")
 	outb, err := cmd.CombinedOutput()
 	if err != nil {
 		fmt.Printf("INFRASTRUCTURE: race body failed: %v\n%s\n", err, oneLine(string(outb), 2000))
+		if c.NumViolKeys() > 0 {
+			return // the exhaustive part already has a verdict
+		}
 		os.Exit(2)
 	}
 	var text string
